@@ -67,6 +67,14 @@ def scen():
     t = E.Traceback(tb)
     if len(chain(t)) > E.DEFAULT_MAX_FRAMES + 3:
         bad.append('deep traceback: %d nodes with the default limit %d' % (len(chain(t)), E.DEFAULT_MAX_FRAMES))
+    # the text of the record is the full formatted traceback of the original exception, also beyond the frame limit
+    for depth in (1, 3, E.DEFAULT_MAX_FRAMES + 10):
+        info = make_tb(depth)
+        ei = E.ExceptionInfo(info)
+        want = ''.join(traceback.format_exception(*info))
+        if ei.traceback != want:
+            bad.append('ExceptionInfo of a %d-entry traceback: the text is not the formatted original traceback (it ends %r)' % (
+                depth, ei.traceback[-60:]))
     # ExceptionInfo and the rebuilt exception
     try:
         raise KeyError('k', 7)
